@@ -21,3 +21,13 @@ Theorem c04_depth_first_is_flush :
     exists n, forall m, flush St Ev run unwind (n + S m) (e :: nil) st nil = Some (tr, st', Finished).
 Proof. exact flush_complete. Qed.
 Print Assumptions c04_depth_first_is_flush.
+
+(* the world model's flush is that machine: its delivery trace is depth-first, for every
+   handler behaviour *)
+Require Import EV.Base EV.World EV.WorldProofs.
+Theorem c04_world_flush_depth_first :
+  forall (beh : hinfo -> logent -> N -> script) (n : nat) (q : list qitem) (w : world) (tr : list qitem) (s' : wst),
+    Loop.flush wst qitem (run_w beh) unwind_w n q (w, None) nil = Some (tr, s', Finished) ->
+    deliver_list wst qitem (run_w beh) (rev q) (w, None) tr s'.
+Proof. exact world_flush_depth_first. Qed.
+Print Assumptions c04_world_flush_depth_first.
